@@ -1,7 +1,7 @@
 #!/bin/bash
 # usage: tools/sweep.sh <tier> <seed>...   runs every check for each seed on /repo as it is; prints only non-zero exits
 TIER="$1"; shift
-cd /verif
+cd "$(dirname "$(readlink -f "$0")")/.."
 PROPS=$(python3 -c "import json;print(' '.join(c['property_id'] for c in json.load(open('MANIFEST.json'))['checks']))")
 for S in "$@"; do for P in $PROPS; do
   OUT=$(VERIF_SEED=$S ./check $P --tier $TIER 2>&1); RC=$?
